@@ -208,6 +208,51 @@ example (mono hill : Bool) :
   apply mass_write _ _ _ _ _ exComp_dom
   cases mono <;> exact known_of_all (by decide +kernel)
 
+/-- **Mass of any written token list** (repeated keys allowed): `chem_mass` of the text is the count-weighted sum over
+the tokens, i.e. `chem_mass` of the token list read as a dict-with-repetitions. -/
+theorem mass_render (T : MassTable) (mono : Bool) (ts : List Tok) (h : ∀ t ∈ ts, DomTok t)
+    (hk : ∀ t ∈ ts, ∃ m, elemMass T mono t.1 = .ok m) :
+    chemMassStr T mono (render ts) [] = chemMassComp T mono ts := by
+  have hk' : ∀ kv ∈ addAll [] ts, Known T mono kv.1 := by
+    apply known_of_keys
+    intro k hk1
+    rcases mem_keys_addAll hk1 with hk1 | hk1
+    · simp [keys] at hk1
+    · exact keys_known hk k hk1
+  simp only [chemMassStr, parse_render ts h, chemMassComp_known hk', chemMassComp_known hk, msum_addAll, msum]
+  simp
+
+example (mono : Bool) : chemMassStr exTable mono (render exToks) [] = chemMassComp exTable mono exToks := by
+  apply mass_render _ _ _ exToks_dom
+  cases mono <;> exact known_of_all (by decide +kernel)
+
+/-- **Mass is additive over concatenation** (arbitrary formula strings, same boundary condition as `parse_concat`). -/
+theorem mass_concat (T : MassTable) (mono : Bool) (s₁ s₂ : Str) (m₁ m₂ : Rat)
+    (h₁ : chemMassStr T mono s₁ [] = .ok m₁) (h₂ : chemMassStr T mono s₂ [] = .ok m₂)
+    (hb : ∀ c r, s₂ = c :: r → isUpper c = true ∨ c = 91) :
+    chemMassStr T mono (s₁ ++ s₂) [] = .ok (m₁ + m₂) := by
+  unfold chemMassStr at h₁ h₂ ⊢
+  cases hp1 : parseChem s₁ [] with
+  | error e => rw [hp1] at h₁; cases h₁
+  | ok c₁ =>
+    cases hp2 : parseChem s₂ [] with
+    | error e => rw [hp2] at h₂; cases h₂
+    | ok c₂ =>
+      rw [hp1] at h₁
+      rw [hp2] at h₂
+      rw [parseChem_append hp1 hp2 hb]
+      exact chemMassComp_addAll h₁ h₂
+
+example : ∃ m₁ m₂, chemMassStr exTable true (str% "CH3[13C]C-1.5") [] = .ok m₁ ∧
+    chemMassStr exTable true (str% "HC2") [] = .ok m₂ ∧
+    chemMassStr exTable true (str% "CH3[13C]C-1.5" ++ str% "HC2") [] = .ok (m₁ + m₂) := by
+  have h₁ : chemMassStr exTable true (str% "CH3[13C]C-1.5") [] =
+      .ok ((12 : Rat) * (-1/2) + (1007825 : Rat) / 1000000 * 3 + (13003355 : Rat) / 1000000 * 1) := by
+    decide +kernel
+  have h₂ : chemMassStr exTable true (str% "HC2") [] = .ok ((1007825 : Rat) / 1000000 * 1 + 12 * 2) := by
+    decide +kernel
+  exact ⟨_, _, h₁, h₂, mass_concat _ _ _ _ _ _ h₁ h₂ (by intro c r h; simp at h; left; rw [← h.1]; decide)⟩
+
 /-! ### the bundled table -/
 
 /-- the element table of the repo under test (generated from `peptacular.constants`; `Gen.massTable` of
